@@ -230,6 +230,17 @@ func c11storeExec(c *h.Ctx, cs *h.Case) {
 					cs.Fail("wrong-roster", "GetRoster answered with another roster")
 				}
 			}
+			if k < 2 && ro == nil {
+				// oracle (independent of the model): the roster of a tree the store holds is handed out — what a
+				// peer of the deprecated exchange is answered with (handleRequestRoster) — whatever other trees
+				// over the same roster have been released meanwhile
+				for j := 3 * k; j < 3*k+3; j++ {
+					if t := st.Get(idOf(j)); t != nil && t.Roster != nil && t.Roster.ID.Equal(f.rosters[k].ID) {
+						cs.Fail("roster-of-stored-tree-not-handed-out", fmt.Sprintf("the store holds tree id %d over roster %d, yet GetRoster of that roster answers nil", j, k))
+						break
+					}
+				}
+			}
 			cs.Impl = append(cs.Impl, fmt.Sprintf("%v %s", ro != nil, obs()))
 		case "timer":
 			id := idOf(k).String()
@@ -330,6 +341,9 @@ func c11storeGen(c *h.Ctx, yield func(*h.Case)) {
 	yield(&h.Case{Class: "store-corpus", Ops: []string{op("set 2 1"), op("remove 2"), op("timer 2"), op("set 2 2"), op("remove 2"), op("reap 2"), op("get 2"), op("isreg 2"), op("wait"), op("get 2")}})
 	yield(&h.Case{Class: "store-corpus", Ops: []string{op("set 0 1"), op("set 1 2"), op("remove 0"), op("remove 1"), op("timer 0"), op("refresh 0"), op("remove 0"), op("refresh 1"), op("reap 0"), op("get 0"), op("get 1"), op("timer 0"), op("reap 0"), op("get 0")}})
 	yield(&h.Case{Class: "store-corpus", Ops: []string{op("set 0 1"), op("set 1 1"), op("set 3 2"), op("remove 0"), op("remove 1"), op("refresh 1"), op("reg 2"), op("roster 0"), op("roster 1"), op("wait"), op("roster 0"), op("unreg 2"), op("isreg 2"), op("remove 3"), op("close"), op("wait"), op("get 3")}})
+	// two trees over one roster, one released while the other stays (seeded C11r7-A): the roster must still be found
+	yield(&h.Case{Class: "store-corpus", Ops: []string{op("set 0 1"), op("set 1 1"), op("set 4 1"), op("remove 0"), op("wait"), op("get 0"), op("get 1"), op("roster 0"), op("roster 1"), op("remove 4"), op("wait"), op("roster 1"), op("roster 0")}})
+	yield(&h.Case{Class: "store-corpus", Ops: []string{op("set 3 1"), op("set 5 2"), op("remove 5"), op("timer 5"), op("roster 1"), op("reap 5"), op("roster 1"), op("set 5 1"), op("remove 3"), op("wait"), op("roster 1")}})
 	yield(&h.Case{Class: "store-corpus", Ops: []string{op("reg 4"), op("remove 4"), op("isreq 4"), op("wait"), op("isreg 4"), op("set 4 1"), op("remove 4"), op("timer 4"), op("close"), op("get 4"), op("remove 4"), op("wait"), op("get 4")}})
 	// the fired window: a removal's timer has fired and its routine waits for the lock; meanwhile the removal is
 	// cancelled and possibly scheduled again (and other ids are touched); then the stale routine goes on
